@@ -1,8 +1,28 @@
 package main
 
-import "strconv"
+import (
+	"strconv"
 
-func init() { families["c10"] = genC10 }
+	"github.com/johnkerl/miller/v6/pkg/bifs"
+	"github.com/johnkerl/miller/v6/pkg/mlrval"
+)
+
+func init() {
+	families["c10"] = genC10
+	// pctidx <p text> <n> => index chosen by GetPercentileNonInterpolated on the array [0, 1, ..., n-1]
+	ops["pctidx"] = func(a []string) string {
+		p, err := strconv.ParseFloat(a[0], 64)
+		if err != nil {
+			return "err"
+		}
+		n, _ := strconv.Atoi(a[1])
+		arr := make([]*mlrval.Mlrval, n)
+		for i := range arr {
+			arr[i] = mlrval.FromInt(int64(i))
+		}
+		return bifs.GetPercentileNonInterpolated(arr, n, p).String()
+	}
+}
 
 // streams for aggregation: numeric value fields x,y (ints, floats, hex, empties, strings), group keys a,b
 func aggStream(r *rng, maxN int) []record {
@@ -54,6 +74,21 @@ func genC10(r *rng, thorough bool) {
 	emit := func(argv []string, rs []record) {
 		gen("verbs " + joinFlags(argv) + " " + encodeRecords(rs))
 		gen("verbsx " + joinFlags(argv) + " " + encodeRecords(rs))
+	}
+	// percentile index: every integer percentile (and some fractional ones) x group sizes 1..N
+	maxN := 130
+	if thorough {
+		maxN = 420
+	}
+	for _, p := range []string{"0.1", "12.5", "33.3", "99.9", "66.6", "0.5", "2.5", "97.5"} {
+		for k := 1; k <= maxN; k++ {
+			gen("pctidx " + p + " " + strconv.Itoa(k))
+		}
+	}
+	for p := 0; p <= 100; p++ {
+		for k := 1; k <= maxN; k++ {
+			gen("pctidx " + strconv.Itoa(p) + " " + strconv.Itoa(k))
+		}
 	}
 	gl := []string{"a", "b", "a,b", "nosuch", "b,a"}
 	accs := []string{"count", "sum", "mean", "min", "max", "mode", "antimode", "distinct_count", "null_count", "minlen", "maxlen", "median", "p10", "p25", "p75", "p90", "p0", "p100", "p50"}
